@@ -251,7 +251,7 @@ func identViaMain(c *IdentCase) error {
 			return fmt.Errorf("two configured logs share the origin %q (one ID) but the service started instead of refusing the configuration", c.Origins[c.Dup])
 		}
 	}
-	if err := stub.WaitConnected(40 * time.Second); err != nil {
+	if err := stub.WaitConnected(120 * time.Second); err != nil {
 		select {
 		case merr := <-done:
 			stopped = true
